@@ -196,9 +196,12 @@ func judgeC03(x scnResult, res *MonitorResult) {
 			prev := opening.TxOut[idx]
 			if !btcEngineOK(tx, prev) {
 				if kind == "coop" && peerGaveWrongKey {
-					// the peer's coop_close carried a key that is not the taker key: its signature cannot verify and a
-					// real back-end refuses the transaction (the node then waits for the CSV)
+					// the peer's coop_close carried a well-formed key that is not the key behind the taker pubkey: the node
+					// must not sign and publish with it. A validating back-end refuses the transaction (the node then
+					// waits for the CSV), one that cannot validate (LND over neutrino) accepts it: the swap ends in
+					// ClaimedCoop with the funds still locked and no CSV refund ever built.
 					res.Histogram["btc coop spend signed with the peer's wrong key"]++
+					bad("coop/signed-with-a-key-that-is-not-the-taker-key", "the node signed and published a cooperative spend with the key from the peer's coop_close although that key does not belong to the taker pubkey of the opening script: the script engine rejects the transaction")
 				} else {
 					bad(kind+"/script-not-satisfied", "btcd's script engine (standard flags) rejects the spend of the swap output")
 				}
@@ -293,6 +296,7 @@ func judgeC03(x scnResult, res *MonitorResult) {
 		}
 		if !shapeOK && kind == "coop" && peerGaveWrongKey {
 			res.Histogram["lbtc coop spend signed with the peer's wrong key"]++
+			bad("coop/signed-with-a-key-that-is-not-the-taker-key", "the node signed and broadcast a cooperative spend with the key from the peer's coop_close although that key does not belong to the taker pubkey of the opening script")
 		} else if !shapeOK {
 			bad(kind+"/script-not-satisfied", "the witness is not one of the three accepted shapes with signatures valid for the Elements sighash of the spent output")
 		}
@@ -433,8 +437,8 @@ func realWalletScenarios(r *rng, n int) []scn {
 			blocks = "blocks lbtc 10080"
 		}
 		ends := map[string][][]string{
-			"outReceiver": {{"claimpaid"}, {"coop"}, {blocks, "csv"}, {"cancel"}, {blocks, "csv", "restart", "csv"}},
-			"inSender":    {{"claimpaid"}, {"coop"}, {blocks, "csv"}, {"cancel"}, {"restart", "coop"}},
+			"outReceiver": {{"claimpaid"}, {"coop"}, {blocks, "csv"}, {"cancel"}, {blocks, "csv", "restart", "csv"}, {"coop wrongkey", blocks, "csv"}},
+			"inSender":    {{"claimpaid"}, {"coop"}, {blocks, "csv"}, {"cancel"}, {"restart", "coop"}, {"coop wrongkey", blocks, "csv"}},
 			"outSender":   {{"confirm"}, {"confirm", "restart", "confirm"}},
 			"inReceiver":  {{"confirm"}},
 		}
